@@ -275,7 +275,8 @@ def _canon(ev):
 
 
 def units(tier):
-    return [("bfs", True)]
+    # the search is sharded by its first two operations (each shard deduplicates its own states)
+    return [("bfs", True, h) for h in H.first_ops(System(True), 2)]
 
 
 def classify(kind, hist, detail):
@@ -301,7 +302,7 @@ def classify(kind, hist, detail):
 def work(unit, tier):
     part = new_partial()
     system = System(with_bad=unit[1])
-    res = H.explore(system, BOUNDS[tier]["depth"], audit_depth=BOUNDS[tier].get("merge_audit_depth", 0))
+    res = H.explore(system, BOUNDS[tier]["depth"], audit_depth=BOUNDS[tier].get("merge_audit_depth", 0), prefix=unit[2])
     part["cases"] = res.states
     part["steps"] = res.transitions
     part["evaluations"] = res.transitions
